@@ -301,6 +301,7 @@ func PendDec(p []int) *z80.Interrupt {
 
 // InitSpec is everything an init event says.
 type InitSpec struct {
+	Nin     int  // reads the computed port device has already answered (its counter runs on)
 	Bare    bool // attach the real memory object directly to the CPU (no recording wrapper): type-specific fast paths
 	Sid     int // scenario id (passed through to the init event for replays)
 	R       [27]int
@@ -328,7 +329,7 @@ func NewMachine(is *InitSpec) *Machine {
 	switch is.IO.Kind {
 	case "nil":
 	case "hash":
-		m.IO = &RecIO{Desc: is.IO, Acc: &m.Acc}
+		m.IO = &RecIO{Desc: is.IO, Acc: &m.Acc, nin: is.Nin}
 		cpu.IO = m.IO
 	case "console":
 		m.IO = &RecIO{Desc: is.IO, Inner: newTinyCPMIO(m), Acc: &m.Acc}
@@ -398,8 +399,11 @@ func jU16(xs []uint16) string {
 func EmitInit(w *bufio.Writer, is *InitSpec) {
 	r := is.R
 	img := ""
+	if is.Nin != 0 {
+		img = fmt.Sprintf(`,"nin":%d`, is.Nin)
+	}
 	if is.Bare {
-		img = `,"bare":true`
+		img += `,"bare":true`
 	}
 	if is.Dev.Kind == "image" {
 		img += `,"img":` + jInts(is.Dev.Img)
